@@ -84,8 +84,8 @@ def reachable(roots, limit=20000):
         if id(o) in seen or o is None or isinstance(o, (str, int, float, bool, type, types.FunctionType)):
             continue
         seen[id(o)] = o
-        if isinstance(o, (list, tuple, set)):
-            stack.extend(o)
+        if isinstance(o, (list, tuple, set)) or type(o).__name__ == 'ParseResults':
+            stack.extend(list(o))
         elif isinstance(o, dict):
             stack.extend(o.values())
         elif hasattr(o, '__dict__') and type(o).__module__.startswith('pydbml'):
@@ -145,16 +145,123 @@ def make_pool(seed: int) -> Dict[str, List[Any]]:
     pool['Note'] += [Note('x'), Note(None), Note("it's\n\\\n2")]
     pool['Reference'] += [Reference('>', c, c2), Reference('<', [c, c2], [c2], name='n', inline=True),
                           Reference('<>', c, c)]
+    # near-miss spellings of the literals the code treats specially (default schema, relation signs)
+    for sch in ('PUBLIC', 'Public', 'public '):
+        tc = Table('cased', schema=sch, note='table note', columns=[Column('id', 'int', note='column note')])
+        tc.add_index(Index([tc.columns[0]], note='index note'))
+        pool['Table'].append(tc)
+        pool['Column'].append(tc.columns[0])
+        pool['Index'].append(tc.indexes[0])
+        pool['Note'] += [tc.note, tc.columns[0].note, tc.indexes[0].note]
+        pool['Enum'].append(Enum('cased_enum', ['a'], schema=sch))
     pool['TableGroup'] += [TableGroup('g', [t])]
     pool['Project'] += [Project('p'), Project('q', items={'a': 'b'}, note='n')]
     pool['StickyNote'] += [StickyNote('s', 'text')]
     pool['Expression'] += [Expression('now()')]
     pool['Database'] += [Database()]
+    # blueprint objects as the parser leaves them after a parse: tied to their parser, whose database is built.
+    # Fixed documents cover the addressing corner cases (same table name in two schemas, aliases, composite
+    # endpoints, groups, enums in schemas); one generated document adds variety.
+    pool.update(blueprint_pool(rng))
     pool['__rng__'] = [rng]
     return pool
 
 
-STRS = ['', 'a', 'public', 'public.a', 'id', 'x y', "it's", 'a\nb', '﻿z', 'note', '{c}', 'a.b']
+BLUEPRINT_DOCS = [
+    '''Enum st {
+  a [note: 'n'] // c
+  b
+}
+Enum "my sch".kind {
+  x
+}
+Table users as U [headercolor: #aaa] {
+  id int [pk, increment] // c
+  name varchar(10) [not null, unique, default: 'x', note: 'col note']
+  st st
+  kind "my sch".kind
+  indexes {
+    (id, name) [name: 'ix', unique]
+    `lower(name)` [type: hash]
+  }
+  Note: 'table note'
+}
+Table archive.users {
+  id int [pk]
+  uid int [ref: > users.id]
+  name varchar
+}
+Table orders {
+  id int
+  user_id int
+  a_user int [ref: > archive.users.id]
+  a int
+  b int
+}
+Ref named: orders.user_id > users.id [delete: cascade, update: no action]
+Ref: archive.users.name - users.name
+Ref: orders.(a, b) < archive.users.(id, uid)
+Ref: orders.a <> U.id
+TableGroup g1 [color: #abc] {
+  users
+  archive.users
+  Note: 'group note'
+}
+Note sticky {
+  'text'
+}
+Project p {
+  database_type: 'pg'
+  Note: 'project note'
+}
+''',
+    '''Table a {
+  id int
+}
+Table s1.a {
+  id int
+  x int [ref: - a.id]
+}
+Table s2.a as al {
+  id int
+  y int [ref: < s1.a.id]
+}
+Ref: s2.a.id > a.id
+TableGroup g {
+  a
+  s1.a
+  al
+}
+''',
+]
+
+
+def blueprint_pool(rng) -> Dict[str, List[Any]]:
+    from pydbml.parser.parser import PyDBMLParser
+    import pydbml.parser.blueprints as BP
+    out: Dict[str, List[Any]] = {n: [] for n in dir(BP) if n.endswith('Blueprint') and n != 'Blueprint'}
+    out['PyDBMLParser'] = []
+    docs = list(BLUEPRINT_DOCS)
+    try:
+        from spec import gen, surface
+        docs.append(surface.render(gen.random_model(random.Random(rng.randrange(1 << 30)))))
+    except Exception:
+        pass
+    for text in docs:
+        try:
+            p = PyDBMLParser(text)
+            p.parse()
+        except Exception:
+            continue
+        out['PyDBMLParser'].append(p)
+        for o in reachable([p.tables, p.refs, p.enums, p.table_groups, p.sticky_notes, p.project, p.ref_blueprints]).values():
+            n = type(o).__name__
+            if n in out and n != 'PyDBMLParser':
+                out[n].append(o)
+    return out
+
+
+STRS = ['', 'a', 'public', 'PUBLIC', 'Public', 'public.a', 'id', 'x y', "it's", 'a\nb', '﻿z', '﻿﻿z', 'note', '{c}', 'a.b']
 INTS = [-2, -1, 0, 1, 2, 5]
 
 
